@@ -26,15 +26,13 @@ def Enf.typeNamesOk (e : Enf) : Prop :=
   (∀ pt ∈ e.md.p.map (·.1), pt.isEmpty = false ∧ pt.front = 'p') ∧
   (∀ gt ∈ e.md.g.map (·.1), gt.isEmpty = false ∧ gt.front = 'g')
 
-/-- the additional clause of WF10: a batch update only names listed rules (otherwise the adapter is
-    updated before memory discovers the missing rule and rolls back: finding D18) -/
+/-- the additional clause of WF10: only `ClearPolicy` is excluded.  A batch update that names an unlisted
+    old rule needs no clause any more: it used to change the adapter before memory discovered the
+    missing rule and rolled back (finding D18); since the repair `Enf.updatable` refuses it before the
+    adapter is touched, so the state is unchanged and the batch is covered like any other call. -/
 def Enf.opWF10 (e : Enf) (op : MOp) : Bool :=
   e.opWF op &&
   match op with
-  | .updateMany sec pt olds _ =>
-      (match e.getStore sec pt with
-       | some s => olds.all s.policy.contains
-       | none => false)
   | .clear => false       -- ClearPolicy is memory-only by contract: the adapter keeps its rules
   | _ => true
 
